@@ -256,6 +256,8 @@ func runC09(c *Ctx) {
 		c.undecided("C09.3", "GenerateCmd.Run", "method not found")
 	}
 
+	ruleAllFilesProcessed(c, "C09.3")
+
 	// ---- C09.4 cycle check on every success path that follows an edge insertion
 	c09Cycle(c)
 
